@@ -3,6 +3,7 @@ import Mathlib.Tactic
 import Proofs.Audit
 set_option linter.unusedSimpArgs false
 set_option linter.unusedVariables false
+set_option linter.unusedSectionVars false
 
 /-!
 # C11 — files written, moved, copied or deleted through a FileSet are conserved
@@ -224,63 +225,68 @@ theorem C11_dry_run_noop (fs : FS Content) (paths : List String) : deleteAll tru
 /-! ## histories -/
 
 section history
-variable [DecidableEq Key]
+variable {KS KT : Type} [DecidableEq KS] [DecidableEq KT]
 
-private theorem abs_set_S (S T : FileSetM Key Data Content) (hS : Lawful S)
-    (hST : ∀ k k', S.nameOf k ≠ T.nameOf k') (fs : FS Content) (k : Key) (c : Content) :
+private theorem abs_set_S (S : FileSetM KS Data Content) (T : FileSetM KT Data Content)
+    (hS : ∀ k k', S.nameOf k = S.nameOf k' → k = k')
+    (hST : ∀ k k', S.nameOf k ≠ T.nameOf k') (fs : FS Content) (k : KS) (c : Content) :
     absOf S T (fs.set (S.nameOf k) c) = { absOf S T fs with s := upd (absOf S T fs).s k (some c) } := by
-  simp only [absOf, upd, Abs.mk.injEq]
+  simp only [absOf, Abs.mk.injEq]
   constructor
   · funext k'
     by_cases e : k' = k
     · simp [e, FS.set, upd]
-    · have : S.nameOf k' ≠ S.nameOf k := fun h => e (hS.name_inj h)
+    · have : S.nameOf k' ≠ S.nameOf k := fun h => e (hS _ _ h)
       simp [e, FS.set, this, upd]
   · funext k'
     simp [FS.set, (hST k k').symm]
 
-private theorem abs_set_T (S T : FileSetM Key Data Content) (hT : Lawful T)
-    (hST : ∀ k k', S.nameOf k ≠ T.nameOf k') (fs : FS Content) (k : Key) (c : Content) :
+private theorem abs_set_T (S : FileSetM KS Data Content) (T : FileSetM KT Data Content)
+    (hT : ∀ k k', T.nameOf k = T.nameOf k' → k = k')
+    (hST : ∀ k k', S.nameOf k ≠ T.nameOf k') (fs : FS Content) (k : KT) (c : Content) :
     absOf S T (fs.set (T.nameOf k) c) = { absOf S T fs with t := upd (absOf S T fs).t k (some c) } := by
-  simp only [absOf, upd, Abs.mk.injEq]
+  simp only [absOf, Abs.mk.injEq]
   constructor
   · funext k'
     simp [FS.set, hST k' k]
   · funext k'
     by_cases e : k' = k
     · simp [e, FS.set, upd]
-    · have : T.nameOf k' ≠ T.nameOf k := fun h => e (hT.name_inj h)
+    · have : T.nameOf k' ≠ T.nameOf k := fun h => e (hT _ _ h)
       simp [e, FS.set, this, upd]
 
-private theorem abs_del_S (S T : FileSetM Key Data Content) (hS : Lawful S)
-    (hST : ∀ k k', S.nameOf k ≠ T.nameOf k') (fs : FS Content) (k : Key) :
+private theorem abs_del_S (S : FileSetM KS Data Content) (T : FileSetM KT Data Content)
+    (hS : ∀ k k', S.nameOf k = S.nameOf k' → k = k')
+    (hST : ∀ k k', S.nameOf k ≠ T.nameOf k') (fs : FS Content) (k : KS) :
     absOf S T (fs.del (S.nameOf k)) = { absOf S T fs with s := upd (absOf S T fs).s k none } := by
-  simp only [absOf, upd, Abs.mk.injEq]
+  simp only [absOf, Abs.mk.injEq]
   constructor
   · funext k'
     by_cases e : k' = k
     · simp [e, FS.del, upd]
-    · have : S.nameOf k' ≠ S.nameOf k := fun h => e (hS.name_inj h)
+    · have : S.nameOf k' ≠ S.nameOf k := fun h => e (hS _ _ h)
       simp [e, FS.del, this, upd]
   · funext k'
     simp [FS.del, (hST k k').symm]
 
-private theorem abs_del_T (S T : FileSetM Key Data Content) (hT : Lawful T)
-    (hST : ∀ k k', S.nameOf k ≠ T.nameOf k') (fs : FS Content) (k : Key) :
+private theorem abs_del_T (S : FileSetM KS Data Content) (T : FileSetM KT Data Content)
+    (hT : ∀ k k', T.nameOf k = T.nameOf k' → k = k')
+    (hST : ∀ k k', S.nameOf k ≠ T.nameOf k') (fs : FS Content) (k : KT) :
     absOf S T (fs.del (T.nameOf k)) = { absOf S T fs with t := upd (absOf S T fs).t k none } := by
-  simp only [absOf, upd, Abs.mk.injEq]
+  simp only [absOf, Abs.mk.injEq]
   constructor
   · funext k'
     simp [FS.del, hST k' k]
   · funext k'
     by_cases e : k' = k
     · simp [e, FS.del, upd]
-    · have : T.nameOf k' ≠ T.nameOf k := fun h => e (hT.name_inj h)
+    · have : T.nameOf k' ≠ T.nameOf k := fun h => e (hT _ _ h)
       simp [e, FS.del, this, upd]
 
-private theorem abs_mvKey (S T : FileSetM Key Data Content) (hS : Lawful S) (hT : Lawful T)
-    (hST : ∀ k k', S.nameOf k ≠ T.nameOf k') (copy : Bool) (fs : FS Content) (k : Key) :
-    absOf S T (mvKey S T copy fs k) = mvKeyA copy (absOf S T fs) k := by
+private theorem abs_mvKey (S : FileSetM KS Data Content) (T : FileSetM KT Data Content) (ρ : KS → KT)
+    (hS : ∀ k k', S.nameOf k = S.nameOf k' → k = k') (hT : ∀ k k', T.nameOf k = T.nameOf k' → k = k')
+    (hST : ∀ k k', S.nameOf k ≠ T.nameOf k') (copy : Bool) (fs : FS Content) (k : KS) :
+    absOf S T (mvKey S T ρ copy fs k) = mvKeyA ρ copy (absOf S T fs) k := by
   unfold mvKey mvKeyA
   have hs : (absOf S T fs).s k = fs (S.nameOf k) := rfl
   rw [hs]
@@ -293,9 +299,10 @@ private theorem abs_mvKey (S T : FileSetM Key Data Content) (hS : Lawful S) (hT 
     · simp only [if_true]
       rw [abs_set_T S T hT hST]
 
-private theorem abs_step (S T : FileSetM Key Data Content) (hS : Lawful S) (hT : Lawful T)
-    (hST : ∀ k k', S.nameOf k ≠ T.nameOf k') (fs : FS Content) (op : Op Key Content) :
-    absOf S T (stepC S T fs op) = stepA (absOf S T fs) op := by
+private theorem abs_step (S : FileSetM KS Data Content) (T : FileSetM KT Data Content) (ρ : KS → KT)
+    (hS : ∀ k k', S.nameOf k = S.nameOf k' → k = k') (hT : ∀ k k', T.nameOf k = T.nameOf k' → k = k')
+    (hST : ∀ k k', S.nameOf k ≠ T.nameOf k') (fs : FS Content) (op : Op KS KT Content) :
+    absOf S T (stepC S T ρ fs op) = stepA ρ (absOf S T fs) op := by
   cases op with
   | writeS k c => exact abs_set_S S T hS hST fs k c
   | writeT k c => exact abs_set_T S T hT hST fs k c
@@ -303,7 +310,7 @@ private theorem abs_step (S T : FileSetM Key Data Content) (hS : Lawful S) (hT :
     simp only [stepC, stepA]
     induction ks generalizing fs with
     | nil => rfl
-    | cons k r ih => simp only [List.foldl_cons]; rw [ih, abs_mvKey S T hS hT hST]
+    | cons k r ih => simp only [List.foldl_cons]; rw [ih, abs_mvKey S T ρ hS hT hST]
   | deleteS ks dry =>
     cases dry
     · simp only [stepC, stepA, deleteAll, Bool.false_eq_true, if_false, List.foldl_map]
@@ -323,19 +330,31 @@ private theorem abs_step (S T : FileSetM Key Data Content) (hS : Lawful S) (hT :
         rw [ih, abs_del_T S T hT hST]
     · simp [stepC, stepA, deleteAll]
 
-/-- **C11_history** — refinement: for two filesets with lawful naming and disjoint name spaces (different
-templates / directories), *any* sequence of write / overwrite / move / copy / delete / dry-run on the concrete file
-system, viewed through the names (`absOf`), is exactly the same sequence executed on the abstract pair of maps
-`(times, attributes) ⇀ content`.  So after every history each fileset holds, under each key, precisely what the
-abstract history says — nothing lost, duplicated or attributed to another key. -/
-theorem C11_history (S T : FileSetM Key Data Content) (hS : Lawful S) (hT : Lawful T)
-    (hST : ∀ k k', S.nameOf k ≠ T.nameOf k') (fs : FS Content) (ops : List (Op Key Content)) :
-    absOf S T (runC S T fs ops) = runA (absOf S T fs) ops := by
+/-- **C11_history** — refinement.  `S` and `T` may be keyed differently (`KS`, `KT`: templates carrying different
+information) with `ρ : KS → KT` the part of a source key the target template keeps.  Hypotheses: each template is
+injective on *its own* keys (different keys give different names — no parsing, no bijection, no common key type
+is required) and the two name spaces are disjoint (different directories / suffixes).  Then *any* sequence of
+write / overwrite / move / copy / delete / dry-run on the concrete file system, viewed through the names
+(`absOf`), is exactly the same sequence executed on the abstract pair of maps `key ⇀ content`, where a move
+stores the content under `ρ k`.  So after every history each fileset holds, under each key, precisely what the
+abstract history says — nothing lost, duplicated or attributed to another key; two sources with the same
+`ρ`-image overwrite each other in both worlds alike. -/
+theorem C11_history (S : FileSetM KS Data Content) (T : FileSetM KT Data Content) (ρ : KS → KT)
+    (hS : ∀ k k', S.nameOf k = S.nameOf k' → k = k') (hT : ∀ k k', T.nameOf k = T.nameOf k' → k = k')
+    (hST : ∀ k k', S.nameOf k ≠ T.nameOf k') (fs : FS Content) (ops : List (Op KS KT Content)) :
+    absOf S T (runC S T ρ fs ops) = runA ρ (absOf S T fs) ops := by
   induction ops generalizing fs with
   | nil => rfl
   | cons op r ih =>
     simp only [runC, runA, List.foldl_cons] at ih ⊢
-    rw [ih, abs_step S T hS hT hST]
+    rw [ih, abs_step S T ρ hS hT hST]
+
+/-- the special case of two lawful filesets over one key type (`ρ = id`) -/
+theorem C11_history_same_keys {Key : Type} [DecidableEq Key] (S T : FileSetM Key Data Content)
+    (hS : Lawful S) (hT : Lawful T) (hST : ∀ k k', S.nameOf k ≠ T.nameOf k') (fs : FS Content)
+    (ops : List (Op Key Key Content)) :
+    absOf S T (runC S T id fs ops) = runA id (absOf S T fs) ops :=
+  C11_history S T id (fun _ _ h => hS.name_inj h) (fun _ _ h => hT.name_inj h) hST fs ops
 
 end history
 
@@ -366,6 +385,10 @@ example : ∀ c, (exS "a").dec ((exS "a").enc c) = some c := by intro c; simp [e
 #guard (deleteAll false (write (exS "a") FS.empty 5 42) ["a/5"]) "a/5" == none
 #guard (deleteAll true (write (exS "a") FS.empty 5 42) ["a/5"]) "a/5" == some 86
 
-assert_axioms C11_write_find_read C11_move_spec C11_move_conserves C11_delete_spec C11_dry_run_noop C11_history
+-- a coarser target (ρ forgets the last digit): two sources collide, concretely and abstractly alike
+#guard (runC (exS "a") (exS "b") (· / 10) FS.empty [.writeS 51 1, .writeS 52 2, .move [51, 52] false]) "b/5" == some 2
+#guard (runA (· / 10) (absOf (exS "a") (exS "b") (FS.empty : FS Nat)) [Op.writeS 51 1, .writeS 52 2, .move [51, 52] false]).t 5 == some 2
+
+assert_axioms C11_write_find_read C11_move_spec C11_move_conserves C11_delete_spec C11_dry_run_noop C11_history C11_history_same_keys
 
 end FsOps
